@@ -76,7 +76,7 @@ def step (st : St) (line : String) : St × String :=
           let tried := finalTried k o
           let res : Option Res := toRes r
           let h' := match res with
-            | some r' => st.h.finish c r'
+            | some r' => st.h.finish c r' tried.length
             | none => st.h
           ({ m := m', h := h' }, s!"done {showResult r} tried={showTried tried}")
         | _ => (st, "nocall")
@@ -202,7 +202,10 @@ def spec (st : St) (op : String) (obs : String) : String :=
     match os with
     | "req" :: _ =>
       match natArg? os "e" with
-      | some e => verdict "C44/not-first" (Lumina.Spec.C44.specFirst st.h.expectFirst e)
+      | some e =>
+        if !Lumina.Spec.C44.specFirstAny st.h.config st.h.lastFailover e then
+          "specfail C44/not-first-after-failover the first endpoint tried is not the endpoint of the most recent fail-over success (any interleaving)"
+        else verdict "C44/not-first" (Lumina.Spec.C44.specFirst st.h.expectFirst e)
           "the endpoint that succeeded last (in a call that overlapped no other) was not tried first"
       | none => "specfail C44/unparsed"
     | "busy" :: _ => "specskip"
@@ -232,6 +235,10 @@ def spec (st : St) (op : String) (obs : String) : String :=
       | some order =>
         if !Lumina.Spec.C44.specOrder st.h.config order then
           "specfail C44/endpoint-set-changed the register is not a rearrangement of the configured endpoints"
+        else if !(match order with
+            | e :: _ => Lumina.Spec.C44.specFirstAny st.h.config st.h.lastFailover e
+            | [] => true) then
+          "specfail C44/not-first-after-failover the head of the register is not the endpoint of the most recent fail-over success"
         else verdict "C44/not-first" (match order with
             | e :: _ => Lumina.Spec.C44.specFirst st.h.expectFirst e
             | [] => true)
